@@ -10,7 +10,7 @@ import os
 
 from vp import core, vlog
 
-FORMS = ["absolute", "relative", "trailing_slash", "nested_missing", "symlinked_parent", "symlinked_parent_other_depth", "other_filesystem"]
+FORMS = ["absolute", "relative", "trailing_slash", "nested_missing", "symlinked_parent", "symlinked_parent_other_depth", "other_filesystem", "name_extends_data_name", "name_extends_internal_name", "internal_below_data"]
 CACHE = [None, False, True, 0, -1, 3]
 
 
@@ -66,6 +66,17 @@ def dir_for(form, base, name):
             p = os.path.join(base, name + "_abs2")
             return p, p
         return os.path.join(o, name), os.path.join(o, name)
+    # names of the two directories related to each other (when both are given in the same form): siblings of which one
+    # name is the beginning of the other, and the internal directory below the data directory
+    if form == "name_extends_data_name":
+        p = os.path.join(base, "proj_store" if name == "internal" else "proj")
+        return p, p
+    if form == "name_extends_internal_name":
+        p = os.path.join(base, "st" if name == "internal" else "st_data")
+        return p, p
+    if form == "internal_below_data":
+        p = os.path.join(base, "ws", ".dds_internal") if name == "internal" else os.path.join(base, "ws")
+        return p, p
     raise ValueError(form)
 
 
